@@ -823,17 +823,31 @@ static int run_cmd(struct ctx *c, char **t, int nt) {
   if (!strcmp(op, "rtmatrix")) {
     const char *T = ARG(1); int viafile = strstr(ARG(2), "file") != NULL, parsed = ARG(2)[0] == 'p'; char *dir = tokstr(ARG(3), NULL);
     uint64_t count = 0, bad = 0, firstbad = 0; econf_file *kf = NULL, *rd = NULL;
+    /* origin of the object the values are set on (letter in front of direct / file, behind the optional o): p = parsed from a file
+       that begins with a section header, e = parsed from a file WITHOUT any key (comment and blank lines only), n = made by
+       econf_newKeyFile_with_options (no tags: direct only), i = econf_newIniFile; none = econf_newKeyFile */
+    { const char *m = ARG(2); if (*m == 'o') m++;
+      parsed = *m == 'p';
+      if (*m == 'e' || *m == 'n' || *m == 'i') {
+        econf_err be = 0;
+        if (*m == 'e') { char *bp; if (asprintf(&bp, "%s/rtm-empty.conf", dir) < 0) bp = NULL; mkparent(bp);
+          wfile(bp, "# nothing but a comment\n\n", 25); be = econf_readFile(&kf, bp, "=", "#"); free(bp); }
+        else if (*m == 'n') be = econf_newKeyFile_with_options(&kf, "");
+        else be = econf_newIniFile(&kf);
+        if (be) { fprintf(o, "{\"op\":\"rtlist\",\"T\":\"%s\",\"mode\":\"%s+matrix\",\"count\":0,\"bad\":1,\"firstbad\":\"0\"}\n", T, ARG(2)); free(dir); return 0; }
+        parsed = 0; goto have_obj; } }
     if (parsed) {       /* the object the values are set on stems from a file that BEGINS with a section header */
       char *bp; if (asprintf(&bp, "%s/rtm-base.conf", dir) < 0) bp = NULL; mkparent(bp);
       wfile(bp, "[g1]\nseed=1\n[other]\nx=y\n", 24);
       econf_err be = econf_readFile(&kf, bp, "=", "#"); free(bp);
       if (be) { free(dir); return 0; }
     } else if (econf_newKeyFile(&kf, '=', '#')) { free(dir); return 0; }
+  have_obj:;
     int nv = nt - 4; econf_err es = 0;
     /* mode with 'o' in front ("odirect", "ofile", "opdirect", "opfile"): every key is set a SECOND time before the reading round,
        to a value whose decimal text is a proper prefix of the first one's where there is one (v / 100, v / 10): a setter
        replaces whatever the key held */
-    int ow = ARG(2)[0] == 'o'; if (ow) parsed = ARG(2)[1] == 'p';
+    int ow = ARG(2)[0] == 'o';
     for (int ph = 0; ph < 3; ph++) {            /* phase 0: set all; phase 1: set all again (overwrite mode); phase 2: get all */
       if (ph == 1 && !ow) continue;
       int round = ph == 2;
